@@ -543,10 +543,10 @@ fn packet_owned_conversions(b: &[u8]) {
 pub fn check(ctx: &mut Ctx, input: &[u8]) {
     let data = exact(input);
     let b: &[u8] = &data;
+    let _case = crate::watchdog::case_bytes("c01", b);
     let bound = obs::bound_for(b.len());
     let order = mix(fnv(b), ctx.seed);
     ctx.eval();
-    crate::watchdog::note_case(|| format!("C01 len={} hex={}", b.len(), crate::json::hex(&b[..b.len().min(64)])));
 
     // input-shape classes for the floor
     match b.len() {
